@@ -188,6 +188,8 @@ namespace sx {
 
 #ifndef SX_REPLAY
   Real uf(const std::string& name, std::initializer_list<Real> args);   // uninterpreted function application
+  Real derivative(Real term, Real var);                  // d term / d var for a term polynomial in the free symbol var
+  Real substitute(Real term, Real var, Real value);      // term with the free symbol var replaced by value
 #endif
   // magic literals (symbolic numbers travelling through text)
   void magic_reset();
